@@ -189,3 +189,10 @@ Theorem S_loop_head_is_source :
 Proof. exact loop_head_is_source. Qed.
 Print Assumptions S_loop_head_is_source.
 
+
+Theorem S_build_is_source :
+  forall (NN : Num) (fpow : carrier NN -> carrier NN -> carrier NN) (b : builder NN), gen_build
+    NN fpow b = build NN fpow b.
+Proof. exact build_is_source. Qed.
+Print Assumptions S_build_is_source.
+
